@@ -19,11 +19,11 @@ Msg_New(cfg) == [fl |-> FLine_New(cfg),
 Msg_Reset(m) == [fl |-> FLine_New(<<>>), pv |-> PV_Reset(m.pv), hl |-> HLst_Reset(m.hl),
                  body |-> PF0, buflen |-> m.buflen, raw |-> <<0, 0>>, state |-> "SIPMsgInit", offs |-> 0]
 
-Msg_Method(m) == IF m.fl.status = 0 THEN m.fl.mno ELSE m.pv.cseq.mno
+Msg_Method(m) == IF PFEmpty(m.fl.scode) THEN m.fl.mno ELSE m.pv.cseq.mno
 Msg_Obs(m) == [FL |-> FLine_Obs(m.fl), PV |-> PV_Obs(m.pv), HL |-> HLst_Obs(m.hl), Body |-> PFObs(m.body),
                RawMsg |-> IF m.raw[2] = 0 THEN <<0, 0>> ELSE m.raw,
                Parsed |-> m.state = "SIPMsgFIN", Err |-> m.state = "SIPMsgErr",
-               Request |-> m.fl.status = 0, Method |-> Msg_Method(m)]
+               Request |-> PFEmpty(m.fl.scode), Method |-> Msg_Method(m)]
 Msg_Panicked(m) == FLine_Panicked(m.fl) \/ PV_Panicked(m.pv) \/ HLst_Panicked(m.hl) \/ IsPanicF(m.body)
 
 MRet(m, o, e) == [st |-> m, offs |-> o, err |-> e]
